@@ -282,6 +282,14 @@ func runC19(c *fw.Ctx) {
 						return o
 					}),
 				}
+				results = append(results, run("R5b-repl-form-by-form-no-module", false, func(e types.EnvType, ctx context.Context) hx.Outcome {
+					for _, t := range texts {
+						if _, err := lisp.REPL(ctx, e, l.head+t+l.tail, nil); err != nil {
+							return hx.Outcome{Err: err}
+						}
+					}
+					return hx.Outcome{}
+				}))
 				// R7: load-file, both definitions
 				fn := filepath.Join(dir, fmt.Sprintf("p%d-%d.lisp", i, li))
 				if err := os.WriteFile(fn, []byte(fileText), 0o644); err != nil {
@@ -316,12 +324,12 @@ func init() {
 	fw.Register(&fw.Property{
 		ID:     "C19",
 		Run:    runC19,
-		Rule:   "seeded programs of 1-8 top-level forms (C01 generator with 10% faults; C12/C03 generator with macros and try) ending in (trace! result), each rendered in the plain layout plus 3 of 7 hostile layouts (comments with brackets/quotes between any two tokens, leading comment block, CRLF between tokens, no final newline, trailing comment with / without final newline / on the last line, blank lines) and delivered through 8 routes in fresh standard environments: do-wrapped text without and with module name, position-less AST built from Go, re-read of its own printed form, forms fed one by one to REPL, file loaded with load-file (library definition and bootstrap.lisp's definition); error class, thrown value, ordered trace (modulo gensym names) and, where defined, EVAL's return value must agree with the plain-text route; distinct = program skeletons",
+		Rule:   "seeded programs of 1-8 top-level forms (C01 generator with 10% faults; C12/C03 generator with macros and try) ending in (trace! result), each rendered in the plain layout plus 3 of 7 hostile layouts (comments with brackets/quotes between any two tokens, leading comment block, CRLF between tokens, no final newline, trailing comment with / without final newline / on the last line, blank lines) and delivered through 9 routes in fresh standard environments: do-wrapped text without and with module name, position-less AST built from Go, re-read of its own printed form, forms fed one by one to REPL with and without a module name, file loaded with load-file (library definition and bootstrap.lisp's definition); error class, thrown value, ordered trace (modulo gensym names) and, where defined, EVAL's return value must agree with the plain-text route; distinct = program skeletons",
 		Assume: []string{"line-ending changes are applied between tokens only", "load-file and the REPL route do not define EVAL's return value: the program's value is compared through the final trace!"},
 		Finish: func(m *fw.Merged) {
 			m.Floor("programs", 500)
 			m.Floor("programs_ending_in_error", 50)
-			for _, rt := range []string{"R1-text", "R2-text-with-module", "R3-positionless-ast", "R4-reread-print", "R5-repl-form-by-form", "R7-load-file", "R7b-load-file-bootstrap"} {
+			for _, rt := range []string{"R1-text", "R2-text-with-module", "R3-positionless-ast", "R4-reread-print", "R5-repl-form-by-form", "R5b-repl-form-by-form-no-module", "R7-load-file", "R7b-load-file-bootstrap"} {
 				m.Floor("route."+rt, 500)
 			}
 			m.Floor("layout.trailing-comment-no-newline", 20)
